@@ -231,7 +231,23 @@ class Checker(object):
             bad('is_qf', sk, 'is_qf(%s) = %r' % (B.show(fb, 150), qf))
         # ---- types
         try:
-            ts = set(B.from_pytype(t) for t in env.typeso.get_types(f))
+            got_list = env.typeso.get_types(f)
+            ts = set(B.from_pytype(t) for t in got_list)
+            # the caller owns the list it was given: emptying it must not
+            # change what the next query answers
+            try:
+                del got_list[:]
+                got_list.append(None)
+            except Exception:
+                pass
+            ts_again = set(B.from_pytype(t)
+                           for t in env.typeso.get_types(f))
+            rep.count('types_requeried_after_caller_mutation')
+            if ts_again != ts:
+                bad('types', 'answer-aliased/' + sk,
+                    'get_types(%s) answers %s after the caller emptied the '
+                    'list it got from the previous call (%s)' % (
+                        B.show(fb, 150), sorted(ts_again), sorted(ts)))
             req, allowed = ref_types(fb)
             rep.count('types_compared')
             if not (req <= ts):
